@@ -532,6 +532,8 @@ def install(E):
         M[(kind, "removeprefix")] = arity(m_removeprefix, "removeprefix", 1)
         M[(kind, "partition")] = arity(m_partition, "partition", 1)
     M[("str", "isdigit")] = arity(m_isdigit, "isdigit", 0)
+    # isascii(): every character below U+0080 (true for the empty string)
+    M[("str", "isascii")] = arity(lambda ctx, s, a, k: VBool(z3.InRe(s.z, z3.Star(z3.Range(chr(0), chr(0x7f))))), "isascii", 0)
 
     for kind in ("str", "bytes"):
         M[(kind, "startswith")] = arity(m_startswith, "startswith", 1)
